@@ -52,3 +52,15 @@ package obfs4
 //@   requires t != nil && dRand != nil
 //@   atcall generateObfs4Keys before: assert @C01: arg0 == dRand
 //@   ensures @C01: true
+
+// C02 (obfs4): the registrations an obfs4 first flight is compared against are exactly valid registrations of the
+// connection's own phantom that are filed under an identifier of the obfs4 length (public key + node id = 52 bytes);
+// the identifiers of the other transports are 32-byte HMACs (proved on their GetIdentifier), so a registration made
+// for another transport is never a candidate - whatever keys could be derived for it.
+//@ func getObfs4Registrations(regManager transports.RegManager, darkDecoyAddr net.IP) []transports.Registration
+//@   requires regManager != nil
+//@   ensures @C02: forall i int :: 0 <= i && i < len(result) ==> (exists k string :: k in validRegs(regManager, darkDecoyAddr) && len(k) == 52 && result[i] == validRegs(regManager, darkDecoyAddr)[k])
+//@   assigns nothing
+//@ loop 1:
+//@   invariant regManager != nil && (cap(regs) == 0 || fresh(regs))
+//@   invariant forall i int :: 0 <= i && i < len(regs) ==> (exists k string :: k in validRegs(regManager, darkDecoyAddr) && len(k) == 52 && regs[i] == validRegs(regManager, darkDecoyAddr)[k])
